@@ -76,7 +76,11 @@ func (m *bfMachine) step(x *hx, o op) {
 	switch o.N {
 	case "Add":
 		want := m.add(x, i)
-		id, added := m.real.Add(bfBytes(i))
+		arg := append(make([]byte, 0, 8), bfBytes(i)...)
+		id, added := m.real.Add(arg)
+		for j := range arg[:cap(arg)] { // the argument stays the caller's
+			arg[:cap(arg)][j] = 0xEE
+		}
 		if id != bfIdent(bfBytes(i)) {
 			x.failOp("wrong-identifier", "Add(%v) returned identifier %v", bfBytes(i), id[:3])
 		}
@@ -89,7 +93,12 @@ func (m *bfMachine) step(x *hx, o op) {
 			x.failOp("wrong-return", "AddIdentifier(#%d) = %v, model %v (N=%d) says %v", i, added, m.model, m.n, want)
 		}
 	case "Contains":
-		if g := m.real.Contains(bfBytes(i)); g != m.has(i) {
+		arg := append(make([]byte, 0, 8), bfBytes(i)...)
+		g := m.real.Contains(arg)
+		for j := range arg[:cap(arg)] {
+			arg[:cap(arg)][j] = 0xEE
+		}
+		if g != m.has(i) {
 			x.failOp("wrong-return", "Contains(#%d) = %v, model %v", i, g, m.model)
 		}
 	case "ContainsIdentifier":
